@@ -91,10 +91,16 @@ func c06NewTimingWheel(interval time.Duration, numSlots int, execute collection.
 //verif:stub (*github.com/zeromicro/go-zero/core/stores/cache.Stat).IncrementDbFails c06StatNop
 func c06StatNop(s *Stat) {}
 
-var c06CleanTasks int
+var (
+	c06CleanTasks int
+	c06Pending    []func() error // retry tasks handed to the cleaner (run by the harness, as the cleaner would later)
+)
 
 //verif:stub github.com/zeromicro/go-zero/core/stores/cache.AddCleanTask c06AddCleanTask
-func c06AddCleanTask(task func() error, keys ...string) { c06CleanTasks++ }
+func c06AddCleanTask(task func() error, keys ...string) {
+	c06CleanTasks++
+	c06Pending = append(c06Pending, task)
+}
 
 var (
 	c06ErrNotFound = errors.New("c06: row not found")
@@ -340,7 +346,10 @@ func Verif_C06_Writes() {
 			rt.RedisFail(true)
 			rt.Cover("deldown")
 		}
-		err := w.node.DelCtx(ctx, c06Key, "other")
+		c06Pending = nil
+		reqCtx, endRequest := context.WithCancel(ctx)
+		err := w.node.DelCtx(reqCtx, c06Key, "other")
+		endRequest() // the request that asked for the invalidation is over before the cleaner retries
 		rt.RedisFail(false)
 		rt.Cover("del")
 		rt.Assert(err == nil, "Del reports no error (failed deletions are retried asynchronously)")
@@ -348,6 +357,12 @@ func Verif_C06_Writes() {
 		_, b := rt.RedisGetStr("other")
 		if down {
 			rt.Assert(c06CleanTasks == 1, "a failed invalidation is handed to the retry cleaner")
+			for _, task := range c06Pending {
+				rt.Assert(task() == nil, "the retried invalidation succeeds once the store is back, although the original request has ended")
+			}
+			_, a2 := rt.RedisGetStr(c06Key)
+			_, b2 := rt.RedisGetStr("other")
+			rt.Assert(!a2 && !b2, "after the retry every given key is invalidated")
 		} else {
 			rt.Assert(!a && !b, "Del invalidates every given key")
 			rt.Assert(c06CleanTasks == 0, "no retry without failure")
